@@ -393,6 +393,34 @@ def check_probs(ctx, chk):
                     bad.append(ast.unparse(e))
     chk.ob("C15.probs", "_get_action_probs: 'mixed' levels are literals in (0, 1]",
            nlev >= 2 and not bad, f"{nlev} level literal(s); outside (0,1]: {bad}", fi.module.path)
+    # None branch: the raw draw random_sample(n) lies in [0, 1) (0.0 has probability 2^-53: noted);
+    # any quantisation of it makes exactly 0.0 (or 1.0 -> fine) a likely value
+    none_vals = [t for pc, t in s.returns
+                 if any(f_show(cn.formula(c)) == f"None is {P}" for c in pc if c[0] != "fact")]
+
+    def none_branch(t):
+        if t[0] == "phi":
+            if f_show(cn.formula(t[1])) == f"None is {P}":
+                return [t[2]]
+            return none_branch(t[2]) + none_branch(t[3])
+        return []
+    for pc, t in s.returns:
+        none_vals += none_branch(t)
+    n_arg = fi.params[1]
+    for t in none_vals:
+        txt = cn.show(t)
+        raw = f"np.random.random_sample({n_arg})"
+        if txt == raw:
+            chk.ob("C15.probs", "_get_action_probs: unspecified probabilities are raw uniform draws "
+                   "from [0, 1)", True, "", fi.module.path)
+        elif raw in txt and any(q in txt for q in ("round(", "around(", "floor(", "trunc(",
+                                                    "astype(", "rint(", "//", "fix(")):
+            chk.ob("C15.probs", "_get_action_probs: unspecified probabilities are raw uniform draws "
+                   "from [0, 1)", False, f"the draw is quantised ({txt}): exactly 0.0 becomes a likely "
+                   "value, outside the documented (0, 1]", fi.module.path)
+        else:
+            chk.undecided("C15.probs", "_get_action_probs: value returned when the probabilities are "
+                          "unspecified", txt[:200], fi.module.path)
 
 
 # ------------------------------------------------------------------------------ (i)
@@ -540,11 +568,70 @@ def check_hosts(ctx, chk):
         detail = f"loops {loops}, condition {f_show(cn.conj(tuple(cond)))}"
     chk.ob("C15.hosts", "_dirichlet_process: at least one option set (loop over "
            "range(max(poisson, 1)) sets an entry unconditionally)", ok, detail, fi.module.path)
+    check_permutations(ctx, chk)
     fi, ip, s, cn = method_run(ctx, "_get_host_value")
     txt = [cn.show(t) for _, t in s.returns]
     chk.ob("C15.hosts", "_get_host_value = sensitive_hosts.get(address, base_host_value)",
            txt == [f"G.sensitive_hosts.get({fi.params[1]}, G.base_host_value)"], str(txt),
            fi.module.path)
+
+
+def check_permutations(ctx, chk):
+    """uniform branch: _possible_host_configs drops one row of _permutations(n); that row must be
+    the all-False one.  Two shapes of _permutations are recognised; anything else is undecided."""
+    gcls = ctx.repo.cls(GEN_MOD, "ScenarioGenerator")
+    pm = gcls.methods.get("_permutations")
+    ph = gcls.methods.get("_possible_host_configs")
+    if pm is None or ph is None:
+        chk.undecided("C15.hosts", "uniform branch: configuration enumeration helpers not found")
+        return
+    last_false = first_false = None     # is the last / first row all False?
+    # shape (a): recursion  base [[True],[False]] ; step appends [True]+p then [False]+p
+    base = [n for n in ast.walk(pm.node) if isinstance(n, ast.Return)
+            and isinstance(n.value, ast.List) and n.value.elts
+            and all(isinstance(e, ast.List) for e in n.value.elts)]
+    loops = [n for n in ast.walk(pm.node) if isinstance(n, ast.For)
+             and isinstance(n.iter, ast.Call) and "_permutations" in ast.unparse(n.iter.func)]
+    if base and loops:
+        rows = [[getattr(x, "value", None) for x in e.elts] for e in base[-1].value.elts]
+        apps = [st.value.args[0] for st in loops[0].body if isinstance(st, ast.Expr)
+                and isinstance(st.value, ast.Call) and isinstance(st.value.func, ast.Attribute)
+                and st.value.func.attr == "append" and st.value.args]
+
+        def head(a):
+            if isinstance(a, ast.BinOp) and isinstance(a.op, ast.Add) \
+                    and isinstance(a.left, ast.List) and len(a.left.elts) == 1 \
+                    and isinstance(a.left.elts[0], ast.Constant) \
+                    and isinstance(a.right, ast.Name) and a.right.id == ast.unparse(loops[0].target):
+                return a.left.elts[0].value
+            return "?"
+        if apps and all(head(a) in (True, False) for a in apps) and len(apps) == len(loops[0].body):
+            last_false = rows[-1] == [False] and head(apps[-1]) is False
+            first_false = rows[0] == [False] and head(apps[0]) is False
+    # shape (b): itertools.product(<literal list>, repeat=n)
+    for n in ast.walk(pm.node):
+        if isinstance(n, ast.Call) and ast.unparse(n.func).endswith("product") and n.args \
+                and isinstance(n.args[0], (ast.List, ast.Tuple)) \
+                and all(isinstance(e, ast.Constant) for e in n.args[0].elts) \
+                and any(k.arg == "repeat" for k in n.keywords):
+            vals = [e.value for e in n.args[0].elts]
+            last_false, first_false = vals[-1] is False, vals[0] is False
+    # which row does _possible_host_configs drop?
+    drops = set()
+    for n in ast.walk(ph.node):
+        if isinstance(n, ast.Subscript) and isinstance(n.slice, ast.Slice) \
+                and "_permutations" in ast.unparse(n.value):
+            sl = ast.unparse(n.slice)
+            drops.add({":-1": "last", "1:": "first"}.get(sl, sl))
+    if last_false is None or not drops:
+        chk.undecided("C15.hosts", "uniform branch: the all-False configuration is excluded",
+                      "shape of _permutations / of the slice not recognised", pm.module.path)
+        return
+    ok = (drops == {"last"} and last_false) or (drops == {"first"} and first_false)
+    chk.ob("C15.hosts", "uniform branch: the one configuration dropped from _permutations(n) is the "
+           "all-False row (every host keeps >= 1 service and >= 1 process)", bool(ok),
+           f"dropped row: {sorted(drops)}; last row all-False: {last_false}; first row all-False: "
+           f"{first_false}", f"{ph.module.path}:{ph.node.lineno}")
 
 
 # ------------------------------------------------------------------------------ (g)
